@@ -265,7 +265,7 @@ func catalogue() []mechType {
 					s(introspection, "allow_fallback_on_error", cc+"allow_fallback_on_error", "true"),
 				}, subjectOpts, assertionOptions(), dataSourceOptions("token_source"), endpointOptions("introspection_endpoint", false))},
 			{"metadata_endpoint", lv(cc+"metadata_endpoint.url", "http://idp.local/.well-known/oauth-authorization-server"),
-				cat([]option{s("assertions", "issuers", cc+"assertions.issuers[0]", "iss")}, endpointOptions("metadata_endpoint", true))},
+				cat([]option{s("assertions", "issuers", cc+"assertions.issuers[0]", "iss")}, assertionOptions(), endpointOptions("metadata_endpoint", true))},
 			{"metadata_endpoint-given-as-string", lv(cc+"metadata_endpoint", "http://idp.local/.well-known/oauth-authorization-server"), nil},
 		}},
 		{"authenticators", "authenticator", "jwt", []variant{
@@ -277,7 +277,7 @@ func catalogue() []mechType {
 					s(jwtAuthn, "trust_store", cc+"trust_store", tokCert),
 				}, subjectOpts, assertionOptions(), dataSourceOptions("jwt_source"), endpointOptions("jwks_endpoint", false))},
 			{"metadata_endpoint", lv(cc+"metadata_endpoint.url", "http://idp.local/.well-known/openid-configuration"),
-				endpointOptions("metadata_endpoint", true)},
+				cat(assertionOptions(), endpointOptions("metadata_endpoint", true))},
 			{"metadata_endpoint-given-as-string", lv(cc+"metadata_endpoint", "http://idp.local/.well-known/openid-configuration"), nil},
 		}},
 		{"authorizers", "authorizer", "allow", []variant{{"minimal", nil, nil}}},
